@@ -567,6 +567,7 @@ fn run_packages(ctx: &mut Ctx, rp: &RenderProp, pkgs: &[Pkg], only: Option<&BTre
             },
         }
     }
+    run::cleanup_members(&members);
     failures
 }
 
@@ -742,6 +743,7 @@ fn warmup(mut ctx: Ctx) -> ! {
                 let _ = run::prepare_workspace(&ws, &[pkg.name.clone()]);
                 let _ = emit_pkg(&ws, &pkg, &rp, None);
                 let br = run::build_workspace(&ws, &[pkg.name.clone()], false);
+                run::cleanup_members(&[pkg.name.clone()]);
                 eprintln!("warmup build {name}: ok={} {:.1}s {:?}", br.ok, br.wall_s, br.errors);
                 all_ok &= br.ok;
                 built = true;
